@@ -7,16 +7,7 @@ from harness.props import c05
 
 ID = 'C06'
 MODULE = 'Gpv.Props.C06'
-THEOREMS = [
-    'Gpv.C06.counter_merge_eq', 'Gpv.C06.min_merge_eq', 'Gpv.C06.max_merge_eq',
-    'Gpv.C06.mean_merge_eq', 'Gpv.C06.variance_merge_eq', 'Gpv.C06.cov_merge_eq',
-    'Gpv.C06.mean_merge_empty_left', 'Gpv.C06.mean_merge_empty_right',
-    'Gpv.C06.variance_merge_empty_left', 'Gpv.C06.variance_merge_empty_right',
-    'Gpv.C06.mean_tree_eq', 'Gpv.C06.variance_tree_eq', 'Gpv.C06.cov_tree_eq',
-    'Gpv.C06.counter_tree_eq', 'Gpv.C06.min_tree_eq', 'Gpv.C06.max_tree_eq',
-    'Gpv.C06.refuse', 'Gpv.C06.refuse_kinds', 'Gpv.C06.mergeable_kinds',
-    'Gpv.C06.pinned_mean_merge_empty_raises', 'Gpv.C06.pinned_extremum_merge_empty_raises',
-]
+THEOREMS = core.theorems('C06')
 RULE = ('random sequence split into 1..6 chunks (empty chunks included), one accumulator per chunk, random binary merge order, '
         'receiver and merged-in accumulator read before and after every merge; model in exact rationals vs implementation floats '
         '(rtol 1e-9); oracle = exact batch statistic of the union + "other unchanged" + counts add; plus every non-mergeable class '
